@@ -50,6 +50,8 @@ type G struct {
 	extern bool
 	bg     bool // excluded from leak/deadlock accounting (declared background)
 	proc   int  // simulated process id (inherited by children)
+	// the simulated process this goroutine belongs to has exited
+	procExited bool
 
 	stalledUntil time.Duration // fault: not runnable before this fake time
 
@@ -129,6 +131,10 @@ type Sim struct {
 
 	stalls      []*StallRule
 	StallsFired int
+	// Leftover is the number of goroutines of exited simulated processes that
+	// were still blocked when the simulation ended: they stay blocked in the
+	// bubble (a real process exit would have ended them).
+	Leftover int
 	// ExternBeside counts goroutines started by un-instrumented code that made
 	// their first contact while the scheduled goroutine was still running.
 	ExternBeside int
@@ -452,9 +458,15 @@ func (s *Sim) Run() *Verdict {
 		s.mu.Lock()
 		var ready []*G
 		var nextStall time.Duration
-		live, liveFG := 0, 0
+		live, liveFG, leftover := 0, 0, 0
 		for _, g := range s.all {
 			if g.state == stDone {
+				continue
+			}
+			if g.procExited && g.state == stBlocked {
+				// a thread of a process that has exited, blocked in a real
+				// channel operation: it died with its process
+				leftover++
 				continue
 			}
 			live++
@@ -482,6 +494,7 @@ func (s *Sim) Run() *Verdict {
 		}
 		s.mu.Unlock()
 		if liveFG == 0 {
+			s.Leftover = leftover
 			return nil
 		}
 		if len(ready) == 0 && s.reapExterns() {
